@@ -23,6 +23,17 @@ A_INV_KF = ('Inv clauses that an open known finding breaks (C12-One, C12-idle-no
             'the rest of Inv: proofs hold under the hypothesis that no step of the history lies in an open known-finding region')
 
 
+def session_vis(spec):
+    from contracts.session import visible
+
+    def spec2(c, *a):
+        sp = spec(c, *a)
+        sp.effects = visible(sp.effects)
+        sp.effect_filter = visible
+        return sp
+    return spec2
+
+
 def make_prog():
     prog = pyvc.make_program()
     install_handler_model(prog.models)
@@ -32,7 +43,9 @@ def make_prog():
         prog.contracts[c.qual] = c
     for q, sp in session.HELPER_SPECS.items():
         prog.contracts[q] = Contract(q, sp)
-    prog.contracts[session.BGP + 'send_open'] = Contract(session.BGP + 'send_open', timer.wrap(open_send.p_send_open))
+    prog.contracts[session.BGP + 'send_open'] = Contract(session.BGP + 'send_open', session_vis(timer.wrap(open_send.p_send_open)))
+    prog.contracts[session.BGP + 'capability_negotiate'] = Contract(session.BGP + 'capability_negotiate',
+                                                                    timer.wrap(open_send.p_capability_negotiate))
     from contracts import protocol_rx as RX
     for q, sp in RX.HELPER_SPECS.items():
         prog.contracts[q] = Contract(q, sp)
